@@ -1927,6 +1927,51 @@ def index_loops_to_enumerate(func):
     return func
 
 
+# ------------------------------------------------------------------------------------------- keyword tables handed on with **
+
+def expand_kwargs_dicts(func):
+    """`opts = {"a": x, "b": y}` (or `dict(a=x, b=y)`), bound once, read only as `f(**opts)` later in the same statement list, nothing in
+    between re-binding a name the values read or mutating `opts`:  the call is `f(a=x, b=y)` and the table disappears.  The keyword
+    arguments of a call are then visible to rules that read them, however they were collected."""
+    def table(v):
+        if isinstance(v, ast.Dict) and v.keys and all(isinstance(k, ast.Constant) and isinstance(k.value, str) and k.value.isidentifier() for k in v.keys):
+            return [(k.value, x) for k, x in zip(v.keys, v.values)]
+        if isinstance(v, ast.Call) and isinstance(v.func, ast.Name) and v.func.id == "dict" and not v.args and v.keywords and all(k.arg for k in v.keywords):
+            return [(k.arg, k.value) for k in v.keywords]
+        return None
+
+    def block(stmts):
+        i = 0
+        while i < len(stmts):
+            st = stmts[i]
+            for fld in ("body", "orelse", "finalbody"):
+                b = getattr(st, fld, None)
+                if isinstance(b, list) and b and isinstance(b[0], ast.stmt) and not isinstance(st, (ast.FunctionDef, ast.AsyncFunctionDef, ast.ClassDef)):
+                    block(b)
+            if isinstance(st, ast.Assign) and len(st.targets) == 1 and isinstance(st.targets[0], ast.Name) and table(st.value) is not None:
+                name = st.targets[0].id
+                uses = [n for n in ast.walk(func) if isinstance(n, ast.Name) and n.id == name]
+                stars = [(j, c, k) for j in range(i + 1, len(stmts)) for c in ast.walk(stmts[j]) if isinstance(c, ast.Call)
+                         for k in c.keywords if k.arg is None and isinstance(k.value, ast.Name) and k.value.id == name]
+                if len(uses) == 2 and len(stars) == 1:
+                    j, call, kw = stars[0]
+                    pairs = table(st.value)
+                    reads = set().union(*[_loaded(v) for _, v in pairs]) if pairs else set()
+                    between = stmts[i + 1:j]
+                    given = {k.arg for k in call.keywords if k.arg}
+                    # (values with effects of their own may only move when nothing at all is evaluated between the table and the call)
+                    alone = not between and not call.args and len(call.keywords) == 1 and getattr(stmts[j], "value", None) is call
+                    if not (_stored(between) & (reads | {name})) and not (given & {k for k, _ in pairs}) and (alone or all(_pure(v) for _, v in pairs)):
+                        pos = call.keywords.index(kw)
+                        call.keywords[pos:pos + 1] = [ast.copy_location(ast.keyword(arg=k, value=v), v) for k, v in pairs]
+                        del stmts[i]
+                        ast.fix_missing_locations(func)
+                        continue
+            i += 1
+    block(func.body)
+    return func
+
+
 # ------------------------------------------------------------------------------------------- bound-method aliases
 
 def inline_method_aliases(func):
